@@ -41,6 +41,24 @@ def main():
     out.append('Each directory `seeded/<id>/` holds `patch.diff`, the demonstration and `meta.json`. Every change was confirmed with '
                '`tools/confirm_seed.sh` (demo passes without the patch; with it the tree builds, the existing tests of the touched packages pass and the demo fails) '
                'and tried with `tools/seedtest.sh <property> <patch>` (scratch worktree, never /repo).\n')
+    import collections
+    stat = collections.Counter()
+    metas = [json.load(open(f)) for f in sorted(glob.glob(os.path.join(V, 'seeded', '*', 'meta.json')))]
+    for d in metas:
+        t = d.get('detected_by', '')
+        head = t.split('After')[0]
+        first = 'missed' if t.startswith('MISSED') else ('flagged without a failing input' if ('no-failing-input-found' in head or 'check-stopped' in head) else 'caught with a concrete replay')
+        stat[(d.get('round', 1), first)] += 1
+        if first != 'caught with a concrete replay':
+            stat[(d.get('round', 1), 'of those, caught with a concrete replay after strengthening' if ('After strengthening' in t or 'After the same' in t) else 'of those, still not caught by the property\'s own quick check')] += 1
+    out.append('Summary by round (a seed counts for the check of the property it was written against; several "missed" seeds were caught by the check of a neighbouring property, noted in the table):\n')
+    out.append('| round | seeds | caught at first | flagged without failing input at first | missed at first | caught after strengthening | still open |')
+    out.append('|---|---|---|---|---|---|---|')
+    for r in sorted({k[0] for k in stat}):
+        n = sum(1 for d in metas if d.get('round', 1) == r)
+        out.append('| %d | %d | %d | %d | %d | %d | %d |' % (r, n, stat[(r, 'caught with a concrete replay')], stat[(r, 'flagged without a failing input')], stat[(r, 'missed')],
+                                                          stat[(r, 'of those, caught with a concrete replay after strengthening')], stat[(r, 'of those, still not caught by the property\'s own quick check')]))
+    out.append('')
     out.append('| seed | breaks | needs | caught by |')
     out.append('|---|---|---|---|')
     for f in sorted(glob.glob(os.path.join(V, 'seeded', '*', 'meta.json'))):
